@@ -50,6 +50,7 @@ func (w *verifC03) owner() *verifProc {
 
 // acquire runs the real AcquireLock of process p and checks the answers.
 func (w *verifC03) acquire(p *verifProc) {
+	ncalls := len(p.c.Calls)
 	ans := p.z.AcquireLock("manager")
 	verifnd.Event(p.name + " acquire -> " + map[bool]string{true: "true", false: "false"}[ans])
 	p.told = ans
@@ -60,6 +61,14 @@ func (w *verifC03) acquire(p *verifProc) {
 	own := w.owner()
 	if own == p {
 		p.lostDelivered = false
+		return
+	}
+	if len(p.c.Calls) > ncalls {
+		// the answer was computed from ZooKeeper requests made in this very call (not from the
+		// cache); the environment acts only at p's requests, so the store has not changed since
+		// p's last request was served: a fresh "true" must be backed by p's own lock znode
+		verifnd.Reach("C03.fresh-answer")
+		verifnd.Assert(false, "lock.fresh-true-without-znode")
 		return
 	}
 	// answered from the cache although the znode is not (any more) p's
